@@ -11,6 +11,8 @@ VARIANTS = {
     'uc':      {'cc': 'gcc', 'cflags': '-O2 -DNDEBUG -funsigned-char', 'harness': 'plain', 'rename': 'u_'},
     'tsan':    {'cc': 'clang', 'cflags': '-O1 -g -fsanitize=thread', 'harness': 'tsan'},
 }
+# coverage measurement of the library under the generators (tools/coverage.sh; not part of any registered check)
+VARIANTS['cov'] = {'cc': 'gcc', 'cflags': '-O0 -g --coverage', 'harness': 'plain', 'ldflags': '--coverage'}
 for cc in ('gcc', 'clang'):
     for o in ('O0', 'O1', 'O2', 'O3', 'Os'):
         VARIANTS[f'wipe-{cc}-{o}'] = {'cc': cc, 'cflags': f'-{o} -DNDEBUG', 'harness': 'wipe', 'ldflags': '-Wl,-z,now'}
@@ -171,7 +173,7 @@ prop('C14', src='props/c14_safety.cpp', src_by_variant={'fuzz': 'fuzz/fuzz_api.c
            'thorough': [{'variant': 'fuzz', 'workers': 16, 'fuzz': True, 'runs': {'quick': 50000, 'thorough': 4000000}, 'timeout': 14400}, {'variant': 'asan', 'workers': 16}]},
      rule='libFuzzer (clang 14, ASan+UBSan, library assertions on): bytes decoded into (mode, coin, normaliser strict|lenient, allocation-failure switch, enabled mask) and a raw string | a word-level phrase description with 0-4 mutations (separators, deleted/duplicated/foreign/emptied/truncated tokens, 600-byte tokens, 200 combining accents) | a password | a 32-byte buffer; half the workers start from the committed seed corpus, half from nothing. '
           'rapidcheck grammar: strings whose raw or NFKD length is POLYSEED_STR_SIZE-3..+3 in eight shapes (ASCII padding, no-space run, accents after a stem, many short tokens, multi-byte padding, separators only, stray high bytes at the end, non-ASCII beyond the limit), random byte strings, word soups with stray bytes, 32-byte buffers; phrases and passwords. '
-          'Oracle: no sanitizer report, assertion or signal; every status is documented for that function; the input (in an exactly-sized heap block) is unchanged; after a failed call no block is allocated, after success exactly one, gone after free; crypt leaves a loadable seed and passes <= POLYSEED_STR_SIZE-1 password bytes to the KDF; each input finishes (30 s hang guard, re-run alone 3x before it counts). '
+          'Oracle: no sanitizer report, assertion or signal; every status is documented for that function; the input (in an exactly-sized heap block) is unchanged; after a failed call no block is allocated, after success exactly one, gone after free; crypt leaves a loadable seed and passes <= POLYSEED_STR_SIZE-1 password bytes to the KDF; each input finishes (libFuzzer: 30 s per input; rapidcheck: a 60 s per-case watchdog dumps the case; either is re-run alone 3x by the driver before it counts). '
           'Non-trivial = reaches word lookup (>= 16 tokens) or length within 8 of the buffer size or a byte >= 0x80; distinct = fingerprint of the input.',
      required_classes={'any': ['raw-length-within-8-of-buffer-size', 'nfkd-length-within-8-of-buffer-size', 'normaliser-truncated', 'password', 'load:OK', 'load:FORMAT', 'load:MEMORY', 'mode:structured-phrase', 'mode:raw-string', 'mode:password', 'length-near-buffer-size', 'invalid-utf8']},
      assumptions=FUZZ_ASSUME + ['"terminates" is decided as a per-input time bound, not a termination proof'],
@@ -227,9 +229,9 @@ WIPE_VARIANTS = [f'wipe-{cc}-{o}' for cc in ('gcc', 'clang') for o in ('O0', 'O1
 prop('C16', src='props/c16_wipe.cpp',
      plan={'quick': [{'variant': v, 'workers': 1, 'scale': 1.0} for v in WIPE_VARIANTS], 'thorough': [{'variant': v, 'workers': 1} for v in WIPE_VARIANTS]},
      rule='rapidcheck: (full-entropy 19-byte secret, birthday, user features, language, coin, password with a 12-letter random tail, 32-byte mask, scenario) x ten plain builds (gcc and clang at -O0 -O1 -O2 -O3 -Os, linked -z now). Each API call - create, encode, decode and decode_explicit (success with composed and decomposed input, plus one of: word-count error, language error, checksum error, wrong coin, allocation failure, unsupported features), store, load (success plus one of checksum/format/format/allocation failure, and unsupported), keygen, getters, crypt, free - runs on a dedicated 256 KiB stack pre-filled with 0xA5; '
-          'afterwards the dead stack is searched for any 8 consecutive bytes of the secret (old and new), the random bytes, the mask, the password (raw and NFKD), any 12 consecutive bytes of the phrase (NFC and NFKD), and any 4 consecutive word indices / polynomial coefficients as 16-, 32- or 64-bit arrays. The injected wipe function fills 0xEE ("mark" mode): the block handed to the injected free must be entirely 0xEE and the wipe call immediately before the free must cover it. '
+          'afterwards the dead stack is searched for any 8 consecutive bytes of the secret (old and new), the random bytes, the mask, the password (raw and NFKD), any 12 consecutive bytes of the phrase (NFC and NFKD), and any 4 consecutive word indices / polynomial coefficients as 16-, 32- or 64-bit arrays. The injected wipe function fills 0xEE ("mark" mode): every block handed to the injected free during any call (seed release and the failure exits of load/decode) must be entirely 0xEE, and the wipe call immediately before polyseed_free\'s free must cover the block. At the end of each case the writable static storage of the executable (.data/.bss, where the statically linked library keeps its own statics; the harness keeps its copies on the heap or in TLS) is searched once for all patterns of the case. '
           'Every case is non-trivial (all calls handle secret items); distinct = fingerprint of the case.',
-     required_classes={'any': ['call:create', 'call:encode', 'call:crypt', 'call:free', 'exit:decode/OK', 'exit:decode/NUM_WORDS', 'exit:decode/LANG', 'exit:decode/CHECKSUM', 'exit:decode/MEMORY', 'exit:decode/UNSUPPORTED', 'exit:decode/MULT_LANG', 'exit:decode_explicit/OK', 'exit:decode_explicit/LANG', 'exit:load/OK', 'exit:load/CHECKSUM', 'exit:load/FORMAT', 'exit:load/MEMORY', 'exit:load/UNSUPPORTED']},
+     required_classes={'any': ['call:create', 'call:encode', 'call:crypt', 'call:free', 'static-storage-scanned', 'exit:decode/OK', 'exit:decode/NUM_WORDS', 'exit:decode/LANG', 'exit:decode/CHECKSUM', 'exit:decode/MEMORY', 'exit:decode/UNSUPPORTED', 'exit:decode/MULT_LANG', 'exit:decode_explicit/OK', 'exit:decode_explicit/LANG', 'exit:load/OK', 'exit:load/CHECKSUM', 'exit:load/FORMAT', 'exit:load/MEMORY', 'exit:load/UNSUPPORTED']},
      assumptions=['memory inspection only: registers, caches and kernel copies are out of reach; compiler coverage is the ten listed builds', 'thresholds are 8 bytes / 12 phrase bytes / 4 indices: single spilled scalars are not demanded to be absent'],
      technique='property-based testing (rapidcheck) with a dead-stack residue scan on a dedicated context stack and inspection of the freed block, across ten compiler/optimisation builds',
      level_text='For every generated case each API function and exit path is executed on a patterned stack which is then searched for secret-derived byte patterns; the freed block is inspected at release time with a marking wipe function. Exploration over inputs and ten compiler configurations.')
